@@ -384,7 +384,7 @@ def replay_real_orientations(ctx: Ctx, sink: Sink, I: Impl, orbits: list, rng: r
     for rec in base:
         ecc = O.qf(rec["e"])
         nu = O.quarter(rec["q"])
-        for a_km in REAL_SMA_KM:
+        for a_km in (REAL_SMA_KM[:2] + REAL_SMA_KM[3:5] if ctx.quick else REAL_SMA_KM):
             S = O.Scaled(rec, a_km, I.mu)
             r_pf, v_pf = S.pos(rec["r"]), S.vel(rec["v"])
             for inc_d in REAL_INC_DEG:
@@ -619,7 +619,7 @@ def run(ctx: Ctx):
     rng = random.Random(ctx.seed * 104729 + 12)
     ctx.rule = ("lattice: every state of OrbitLattice.tla (family x 24 cube + 64 tilted orientations x 4 anomalies) at "
                 "2-4 sizes in 6700..50000 km and unscaled; the identity-orientation lattice states (exact anomaly 0/90/180/270 deg) composed in floating "
-                "point with 7 inclinations x 16 nodes x 6 perigee arguments x 6 sizes (non-quarter-turn, e.g. 28.5/45/63.4 deg); non-trivial = every lattice state (each has its own singular case / "
+                "point with 7 inclinations x 16 nodes x 6 perigee arguments x 4-6 sizes (non-quarter-turn, e.g. 28.5/45/63.4 deg); non-trivial = every lattice state (each has its own singular case / "
                 "quadrant pattern); threshold variants: 8 eccentricities x 16 inclinations around the limits of the code x "
                 "random angles; seeded generic orbits a 6600-50000 km, e < 0.9, all inclinations incl. 1e-6 from 0 and pi; "
                 "seeded anomaly pairs incl. circular-limit eccentricities; distinct by the abstract input tuple")
